@@ -457,6 +457,15 @@ func genCase(rng *rand.Rand, n int, seed int64, pf Profile) *CaseDesc {
 					rets = append(rets, t)
 					if chance(rng, 0.5) {
 						p.ShadowOK = append(p.ShadowOK, t)
+					} else if chance(rng, 0.6) {
+						// the annotation sits on the LOWEST returner of t instead: that does not license this override
+						for j := len(c.Provs) - 1; j > i; j-- {
+							q := c.Provs[j]
+							if (q.Kind == "wrap" || j == len(c.Provs)-1) && contains(q.Out, t) {
+								q.ShadowOK = uniq(append(q.ShadowOK, t))
+								break
+							}
+						}
 					}
 				}
 			}
